@@ -61,10 +61,12 @@ def main():
             print(json.dumps(res))
             return 2
         res["applies"] = True
-        r = sh([PY, "-m", "pytest", "-q", "-p", "no:cacheprovider", "-n", "8", "--deselect", "tests/test_ctparse.py::test_ctparse"], cwd=wt, env=env)
+        # full suite: BASELINE expects 70 passed and exactly one failure, tests/test_ctparse.py::test_ctparse (always_fail)
+        r = sh([PY, "-m", "pytest", "-q", "-p", "no:cacheprovider", "-n", "8", "-rf"], cwd=wt, env=env)
         m = re.search(r"(\d+) passed", r.stdout)
         res["tests_passed"] = int(m.group(1)) if m else 0
-        res["tests_failed"] = bool(re.search(r"\d+ failed", r.stdout))
+        failed = re.findall(r"^FAILED (\S+)", r.stdout, re.M)
+        res["tests_failed"] = [f for f in failed if f != "tests/test_ctparse.py::test_ctparse"]
         r = sh([PY, demo], cwd=wt, env=env)
         res["demo_changed_exit"] = r.returncode
         res["demo_output"] = (r.stdout + r.stderr)[-600:]
